@@ -187,14 +187,97 @@ def iteration_vs_singles(ck, rng, n):
     ck.current_case = None
 
 
+QUICK_PROBES = [0, 1, 2, 4, 5, 7, 8, 9, 10, 11]
+
+
+def _same(a, b, rtol=1e-6, atol=1e-7):
+    """nested lists of numbers equal up to float32 rounding (the programs are identical; only their position in the process differs)"""
+    if isinstance(a, list) and isinstance(b, list):
+        return len(a) == len(b) and all(_same(x, y, rtol, atol) for x, y in zip(a, b))
+    if isinstance(a, (int, float)) and isinstance(b, (int, float)):
+        if a != a or b != b:
+            return (a != a) and (b != b)
+        return a == b or abs(a - b) <= atol + rtol * abs(b)
+    return a == b
+
+
+class HistoryProbe:
+    """'depends only on its explicit arguments': every probe (a built-in environment / wrapper stack evaluated on fixed keys and
+    actions) must give bit-identical results whether it is the only thing its process ever did, or comes after / before all the
+    other probes (same-shaped spaces with different bounds, same classes with different options) in one process."""
+
+    def __init__(self, ck, quick):
+        import os
+        import subprocess
+        import sys
+        from harness.common import VERIF
+        self.ck = ck
+        env = dict(os.environ); env.pop("JAX_ENABLE_X64", None)
+        n_all = 18
+        self.ids = QUICK_PROBES if quick else list(range(n_all))
+        run = lambda ids: subprocess.Popen([sys.executable, "-m", "harness.sub_c12_history", "--probes", ",".join(map(str, ids))],  # noqa: E731
+                                           cwd=str(VERIF), env=env, stdout=subprocess.PIPE, stderr=subprocess.STDOUT, text=True)
+        self.run = run
+        self.multi = {"after the others (forward order)": run(self.ids), "before the others (reverse order)": run(self.ids[::-1])}
+        self.pending = list(self.ids)
+        self.single_procs = {}
+        self._fill()
+
+    def _fill(self):
+        while self.pending and sum(p.poll() is None for p in self.single_procs.values()) < 5:
+            i = self.pending.pop(0)
+            self.single_procs[i] = self.run([i])
+
+    @staticmethod
+    def _parse(out):
+        import json
+        import re
+        m = re.search(r"^RESULT (.*)$", out or "", re.M)
+        return None if not m else {r["probe"]: r for r in json.loads(m.group(1))}
+
+    def collect(self):
+        import time
+        ck = self.ck
+        while self.pending:
+            self._fill(); time.sleep(0.5)
+        singles = {}
+        for i, p in self.single_procs.items():
+            out, _ = p.communicate(timeout=900)
+            r = self._parse(out)
+            if r is None or i not in r:
+                ck.violations.append(Violation("correspondence-broken", "C12/history/harness", f"history probe {i} produced no result", extra={"log": (out or "")[-1500:]}))
+                continue
+            singles[i] = r[i]
+        for label, p in self.multi.items():
+            out, _ = p.communicate(timeout=1800)
+            r = self._parse(out)
+            if r is None:
+                ck.violations.append(Violation("correspondence-broken", "C12/history/harness", "history probe run produced no result", extra={"log": (out or "")[-1500:]}))
+                continue
+            for i, one in singles.items():
+                ck.count("history_probes")
+                ck.case_seen(("history", i, label))
+                both = r.get(i)
+                if both is None or ("error" in one) != ("error" in both) or not _same(one.get("jit"), both.get("jit")):
+                    ck.violations.append(Violation(
+                        "impl-violates-property", f"C12/history/{one['name']}",
+                        f"{one['name']}: reset/transition/reward/observation/step on fixed keys and actions give different results when evaluated {label} "
+                        "in the same process than in a fresh process: the functions depend on process state, not only on their explicit arguments",
+                        case={"probe": one["name"], "order": [singles[k]["name"] for k in (self.ids if "forward" in label else self.ids[::-1]) if k in singles],
+                              "alone[reset obs; per step: action, reward, observation(next), step obs, step reward, terminal, truncated; space bounds]": one.get("jit", one.get("error")),
+                              "in_sequence": None if both is None else both.get("jit", both.get("error"))}))
+
+
 def body(ck):
     ck.rule = ("(a) finite MDPs x wrapper stacks x tabular policies x N in 2..4 x T in 2..7: vmapped collection vs N single collections (real vs real, bitwise) and vs the Coq model; "
-               "(b) built-in environments (classic control x constructor options x wrappers, MuJoCo; G1 in the thorough tier): eager vs jit vs vmap of transition/observation/reward/terminal on states reached by rollouts, rtol 2e-4")
+               "(b) built-in environments (classic control x constructor options x wrappers, MuJoCo; G1 in the thorough tier): eager vs jit vs vmap of transition/observation/reward/terminal on states reached by rollouts, rtol 2e-4; "
+               "(c) history independence: 10 (quick) / 18 probes, each alone in a fresh process vs after and before all the others in one process, rtol 1e-6")
     ck.assumptions = ["per-environment keys are jr.split(rollout_key, N)[i] (the schedule iteration() uses)"]
     ck.not_proved = ["transparency of jit / vmap (a property of JAX/XLA): observed on the built-in environments with tolerance, not proved",
                      "environment functions depend only on explicit arguments: immutability of equinox modules is assumed; observed by re-evaluation"]
     ck.build_coq(); ck.compile_props()
     quick = ck.tier == "quick"
+    hist = HistoryProbe(ck, quick)          # subprocesses; collected at the end
     real_vs_real(ck, ck.rng, 5 if quick else 60)
     key_independence_probe(ck, quick)
     iteration_vs_singles(ck, ck.rng, 3 if quick else 20)
@@ -207,6 +290,7 @@ def body(ck):
     res = ck.run_coq_cases("C04Check", cases, shard=10, preamble=PREAMBLE)
     ck.classify(res, cj, sig_of=lambda i: "C12/onpolicy/model", relation="OnPolicy.collect per environment (C12_onpolicy_no_mixing) vs vmapped collect_rollout",
                 what="a vectorised rollout is not the N independent single-environment rollouts")
+    hist.collect()
     report(ck, quick, "c12", "a functional component of a built-in environment gives different results eagerly / under jit / under vmap")
 
 
